@@ -58,6 +58,10 @@ pub(super) fn create_transport_costs(
             let (durations, distances) = if let Some(error_codes) = &matrix.error_codes {
                 let capacity = matrix.distances.len();
 
+                if error_codes.len() != capacity || matrix.travel_times.len() != capacity {
+                    return Err(GenericError::from("error codes, travel times and distances have different length"));
+                }
+
                 let mut durations: Vec<Duration> = Vec::with_capacity(capacity);
                 let mut distances: Vec<Distance> = Vec::with_capacity(capacity);
                 let err_fn = |i| move || GenericError::from(format!("invalid matrix index: {i}"));
